@@ -112,6 +112,36 @@ theorem psd_recovery_is_peak_extreme (c : L × Option α × X) (cs : List (L × 
 
 end pipe
 
+section srs
+variable {α P : Type} [LinearOrder α]
+
+/-- ★ SRS of PSD responses (`dosrs=True` in `psd_data_recovery`): after ANY non-empty list of cases the
+envelope `srs.ext[q]` is, element by element, the NaN-ignoring MAXIMUM over the cases of the per-case
+spectra `fact · vrs` (never a minimum, never only the cases recovered last), and it does not depend
+on the order of the cases. -/
+theorem psd_srs_env_is_max_over_cases (spec : P → Option α) (c : P) (cs : List P) :
+    ∃ m, psdSrsEnv spec (c :: cs) = some m ∧ IsNanMax ((c :: cs).map spec) m ∧
+      ∀ c' cs', (c :: cs).Perm (c' :: cs') → psdSrsEnv spec (c' :: cs') = some m := by
+  refine ⟨_, rfl, srs_env_is_max _ _, fun c' cs' hp => ?_⟩
+  simp only [psdSrsEnv, Option.some.injEq]
+  exact (srs_env_order_independent _ _ _ _ (by simpa using hp.map spec)).symm
+
+end srs
+
+section srsscale
+variable {α : Type} [Field α]
+
+/-- the per-case spectrum is linear in the peak factor and in the vibration response spectrum, and
+the `eqsine` option divides it by `Q` -/
+theorem psd_srs_case_scaling (conv pf q vrs a : α) :
+    psdSrsCase conv (a * pf) q false vrs = a * psdSrsCase conv pf q false vrs ∧
+    psdSrsCase conv pf q false (a * vrs) = a * psdSrsCase conv pf q false vrs ∧
+    psdSrsCase conv pf q true vrs = psdSrsCase conv pf q false vrs / q := by
+  simp only [psdSrsCase, if_true, Bool.false_eq_true, if_false]
+  refine ⟨by ring, by ring, by ring⟩
+
+end srsscale
+
 /-! ### non-vacuity -/
 
 /-- `psd_recovery_is_sum_over_forces`: a genuine permutation of two different forces -/
@@ -126,5 +156,8 @@ example : trapz ([1, 2, 4] : List ℚ) [2, 4, 0] = 7 ∧ area2 ([1, 2, 4] : List
 /-- `psd_recovery_is_peak_extreme`: three cases with a tie, fed out of order -/
 example : (psdRow [("B", some (3 : Int), (7 : Nat)), ("A", some 5, 2), ("C", some 5, 9)]).1
     = some ⟨⟨some 5, 2, "A"⟩, ⟨some (-5), 2, "A"⟩⟩ := by decide
+
+/-- `psd_srs_env_is_max_over_cases`: three cases with a NaN and a tie -/
+example : psdSrsEnv (fun c : Option Int => c) [some 2, none, some 5, some 5] = some (some 5) := by decide
 
 end PyYetiVerif.C16
